@@ -431,6 +431,9 @@ theorem gen_cv_output_terms_eq : type_of% @HC.ga_cv_output_terms_eq := @HC.ga_cv
 /-- ... for the helper the generated conv2d search returns -/
 theorem gen_cv_terms_of_new : type_of% @HC.ga_cv_terms_of_new := @HC.ga_cv_terms_of_new
 
+/-- `Conv2dHelper::get_total_batch_size`, generated = `CHelper.totalBatch` (the group count `encode_inputs_*` / `decrypt_outputs_*` iterate over) -/
+theorem gen_cv_total_batch_eq : type_of% @HC.ga_cv_total_batch_eq := @HC.ga_cv_total_batch_eq
+
 /-- **composed with `block_search_sound`**: the GENERATED search returns admissible blocks for every admissible shape -/
 theorem gen_mm_new_sound : type_of% @HC.ga_mm_new_sound := @HC.ga_mm_new_sound
 theorem gen_mm_new_pack_sound : type_of% @HC.ga_mm_new_pack_sound := @HC.ga_mm_new_pack_sound
@@ -449,6 +452,7 @@ example : (GenApp.cv_new 1 1 1 40 4 3 3 64 .cipherPlain).map ga_toCHelper = .ok 
   rfl
 example : GenApp.mm_output_terms ⟨3, 4, 2, 3, 1, 2, 8, .cipherPlain, false⟩ = .ok [0, 1, 2, 3, 4, 5] := by rfl
 example : GenApp.cv_output_terms ⟨1, 1, 1, 4, 4, 3, 3, 16, 1, 1, 1, 4, 4, .cipherPlain⟩ = .ok [10, 11, 14, 15] := by rfl
+example : GenApp.cv_total_batch ⟨1, 1, 1, 40, 4, 3, 3, 64, 1, 1, 1, 16, 4, .cipherPlain⟩ = .ok 3 := by rfl
 example (x w : Nat → ℤ) := gen_cheetah_matmul_search 3 4 2 8 .cipherPlain 0 0 (by decide) (by decide) (by decide) (by decide)
   (by decide) x w
 example (x w : Nat → ℤ) := gen_conv2d_search ⟨2, 3, 2, 6, 5, 3, 2⟩ 64 .cipherPlain (by decide) (by decide) (by decide) (by decide)
